@@ -41,9 +41,13 @@ def replay(project, config, hist, root, iface, layout_seed=None, keep=False, def
     for sd in config['seeds']:
         pr = next((p for p in project['procs'] if p['name'] == sd['local'] and (not sd['q'] or p['mod'] == sd['scope'])), None)
         calls0.append((pr['mod'] if pr else '', sd['local']))
-    final['preflight'] = L.make_link_job(list(paths.values()), [], calls0, root, tag='0')
-    if not defer:
-        final['preflight'] = L.link_job(final['preflight'])
+    nunits = len(project['mods']) + sum(1 for p in project['procs'] if not p['mod'])
+    if nunits == len(paths):
+        final['preflight'] = 'ok'       # one unit per file: no ordering inside files to get wrong
+    else:
+        final['preflight'] = L.make_link_job(list(paths.values()), [], calls0, root, tag='0')
+        if not defer:
+            final['preflight'] = L.link_job(final['preflight'])
     try:
         sched = L.build_scheduler(os.path.join(root, 'src'), cfg_dict, seeds, True)
         steps.append(L.observe_ops_state(sched, paths, mvi))
@@ -129,7 +133,8 @@ def project_sig(P, hist):
     kmod = any(p['name'] in ks and p['mod'] for p in P['procs'])
     mvars = {v for m in P['mods'] for v in m['vars']}
     vimp = any(set(im['only']) & mvars for h in P['procs'] + P['mods'] for im in h['imports'])
-    return f"multi={int(multi)}:modimp={int(modlevel)}:vimp={int(vimp)}:unq={int(unq)}:ksib={int(sib)}:kmod={int(kmod)}"
+    selfrec = any(p['name'] in p['calls'] for p in P['procs'])
+    return f"multi={int(multi)}:modimp={int(modlevel)}:vimp={int(vimp)}:unq={int(unq)}:ksib={int(sib)}:kmod={int(kmod)}:self={int(selfrec)}"
 
 
 def gen_tlc_cases(ctx, n, maxops):
@@ -166,7 +171,7 @@ def run(ctx):
     ctx.cover['phase_wall_s'] = phases
     # ---- 1. design level
     if not (os.environ.get('VERIF_SKIP_MC') or ctx.replay):
-        ctx.mc('MC_SchedOps', mc_cfg(ctx, 'mcq', 2, ('only_r',) if quick else ('only_r', 'only_m')), timeout=1500, workers=8)
+        ctx.mc('MC_SchedOps', mc_cfg(ctx, 'mcq', 2 if quick else 3, ('only_r', 'only_m')), timeout=2400, workers=8)
         r = ctx.tlc('MC_SchedOps', mc_cfg(ctx, 'mcneg', 2, ('only_r', 'only_m'), guarded=False), workers=8, timeout=900)
         if r.ok or not r.invariant_violated:
             raise MachineryError(f'negative control (no preconditions) not rejected by MC_SchedOps:\n{r.tail()}')
@@ -174,7 +179,7 @@ def run(ctx):
     phases['model_checking'] = round(ctx.elapsed(), 1)
 
     runs = []     # (replay payload, trace case)
-    budget = time.time() + (60 if quick else 700)
+    budget = time.time() + (60 if quick else 300)
 
     def add(P, C, hist, iface, origin, modelled, layout=None, mvi=None):
         root = os.path.join(ctx.work, f'h{len(runs)}')
@@ -188,15 +193,15 @@ def run(ctx):
         add(L.normalize_project(c['P']), L.normalize_config(c['C']), c['hist'], c['iface'], 'replay', c.get('modelled', False), c.get('layout'), c.get('mvi', False))
     else:
         # ---- 2. TLC-sampled members of the modelled universe (preconditions hold): histories <= 3
-        for c in gen_tlc_cases(ctx, 40 if quick else 400, 3):
+        for c in gen_tlc_cases(ctx, 32 if quick else 300, 3):
             if time.time() > budget and len(runs) >= 20:
                 break
             P, C = L.normalize_project(c['P']), L.normalize_config(c['C'])
             add(P, C, c['hist'], True, 'tlc', True)
         ntlc = len(runs)
         # ---- 3. seeded larger projects (several units per file, module-level imports, siblings): no preconditions
-        budget += 40 if quick else 300
-        legal, yield_ = L.seeded_pairs(ctx, 30 if quick else 300)
+        budget += 40 if quick else 240
+        legal, yield_ = L.seeded_pairs(ctx, 24 if quick else 250)
         ctx.cover['seeded_candidates_legal'] = yield_
         for i, (P, _) in enumerate(legal):
             if time.time() > budget and len(runs) - ntlc >= 15:
